@@ -1,2 +1,3 @@
 
 import FontcProps.C07
+import FontcProps.C05
